@@ -24,6 +24,9 @@ TREE_FILES = {
     'root/a..b': b'inside a..b',
     'root/\xe9 \u20ac.txt': b'inside, non-ASCII name',
     'root/root2/inner.txt': b'inside root/root2',
+    'root/\u2025/lookalike.txt': b'inside, in a directory whose NAME is U+2025 TWO DOT LEADER',
+    'root/\uff0e\uff0e/lookalike.txt': b'inside, in a directory named with two FULLWIDTH FULL STOPs',
+    'root/%2e%2e/lookalike.txt': b'inside, in a directory named %2e%2e',
     'root2/secret.txt': DECOY,
     'root2/a.txt': DECOY,
     'rootx/secret.txt': DECOY,
@@ -102,10 +105,72 @@ NAMED = [
 ]
 
 
+# ---- LOOK-ALIKE SPELLINGS of the path syntax (class: text that is not '.', '..', '/' or '\\' but that SOME folding step
+# turns into them).  For abspath + prefix test such a name is a harmless, non-existent name inside the root; any later
+# re-spelling of the already validated path (Unicode normalisation, percent-decoding, a lenient decoder) that is not
+# followed by a new containment test leaves the root.  The families are computed, not listed: every code point whose
+# NFKC / NFKD form consists of dots and separators only (TWO DOT LEADER, ONE DOT LEADER, the FULLWIDTH and SMALL forms
+# ...), the ideographic full stops that IDNA maps to '.', percent-encodings (single, upper case, double), and the
+# overlong UTF-8 forms read as Latin-1.
+def _unicode_folds():
+    import unicodedata
+    folds = {}
+    for cp in range(0x80, 0x30000):
+        c = chr(cp)
+        for form in ('NFKC', 'NFKD'):
+            n = unicodedata.normalize(form, c)
+            if n != c and n and set(n) <= set('./\\') and c not in folds.get(n, []):
+                folds.setdefault(n, []).append(c)
+    return folds
+
+
+UNI_FOLDS = _unicode_folds()            # {'.': [...], '..': ['\u2025'], '...': [...], '/': ['\uff0f'], '\\': [...]}
+FOLD_FAMILIES = {
+    'unicode-compat': {k: v for k, v in UNI_FOLDS.items()},
+    'ideographic-stop': {'.': ['\u3002', '\uff61']},
+    'percent': {'.': ['%2e', '%2E'], '/': ['%2f', '%2F'], '\\': ['%5c', '%5C']},
+    'percent-twice': {'.': ['%252e'], '/': ['%252f'], '\\': ['%255c']},
+    'overlong-utf8': {'.': ['\xc0\xae'], '/': ['\xc0\xaf'], '\\': ['\xc1\x9c']},
+}
+TRAVERSALS = [n for n in NAMED if '..' in n and '\x00' not in n] + [
+    '../other/a.txt', '../work/a.txt', 'sub/../../root2/a.txt', '../base/public/secret.txt', '../../secret_above.txt']
+
+
+def respell(rng, name, family=None, what=None):
+    """`name` with its dot-dot segments (what='dots'), its separators ('seps') or both ('all') re-spelled in one of the
+    look-alike families; rng=None: deterministic, first member everywhere"""
+    fam = FOLD_FAMILIES[family or rng.choice(sorted(FOLD_FAMILIES))]
+    what = what or rng.choice(['dots', 'dots', 'seps', 'all', 'some'])
+    pick = (lambda l: l[0]) if rng is None else rng.choice
+    out, i = [], 0
+    while i < len(name):
+        c = name[i]
+        skip = what == 'some' and rng is not None and rng.random() < .5
+        if name.startswith('..', i) and (i + 2 == len(name) or name[i + 2] in '/\\') and (i == 0 or name[i - 1] in '/\\'):
+            if what in ('dots', 'all', 'some') and not skip and ('..' in fam or '.' in fam):
+                two = fam.get('..', []) + ([pick(fam['.']) + pick(fam['.'])] if '.' in fam else [])
+                if '.' in fam and rng is not None and rng.random() < .2:
+                    two.append('.' + pick(fam['.']))            # half re-spelled
+                out.append(pick(two))
+            else:
+                out.append('..')
+            i += 2
+            continue
+        if c in '/\\' and what in ('seps', 'all', 'some') and not skip and c in fam:
+            out.append(pick(fam[c]))
+        else:
+            out.append(c)
+        i += 1
+    return ''.join(out)
+
+
 def gen_filename(rng):
-    k = rng.randrange(8)
+    k = rng.randrange(9)
     if k == 0:
         return rng.choice(NAMED)
+    if k == 8:          # a traversal (or any generated name) in a look-alike spelling
+        base = rng.choice(TRAVERSALS) if rng.random() < .7 else gen_filename(rng)
+        return respell(rng, base)
     n = rng.choice([1, 2, 2, 3, 3, 4, 5, 6])
     parts = []
     for i in range(n):
@@ -262,7 +327,7 @@ class C16(Check):
             'leading slashes; static_file on a real temporary tree (decoys above and beside the root, siblings root2 rootx root.bak, directories that differ from the root or an ancestor only in letter case; '
             'rootx root.bak) for 52 root spellings (absolute/relative, trailing separators, dot segments, other '
             'working directories) x file names built from names, ".", "..", "", sibling names, absolute prefixes and '
-            'separators / \\ repeated; GET/HEAD, If-Modified-Since; call SEQUENCES on one process (same root string under '
+            'separators / \\ repeated, and the same traversals in LOOK-ALIKE spellings (every code point whose NFKC/NFKD form is made of dots and separators, ideographic full stops, percent-encodings once and twice, overlong UTF-8; directories really carrying such names inside the root as positive controls); GET/HEAD, If-Modified-Since; call SEQUENCES on one process (same root string under '
             'other working directories, same name under sub-/sibling roots, same file through several roots); compared: status, every path handed to open(), '
             'the path probed; non-trivial = the name contains "..", a backslash or starts with a separator')
     assumptions = ['os.getcwd() returns an absolute path (hypothesis of the containment theorem)',
@@ -394,6 +459,8 @@ class C16(Check):
         try:
             cases = [((c, r, f, 'GET', False), None) for (c, r) in ROOTS for f in NAMED]
             cases += [(self._case(rng), None) for _ in range(n * 2)]
+            cases += [((c, r, respell(None, t, fam, w), 'GET', False), None) for (c, r) in (ROOTS[0], ROOTS[9], ('', '{T}/base/Public'))
+                      for t in TRAVERSALS[::3] for fam in sorted(FOLD_FAMILIES) for w in ('dots', 'all')]
             # call sequences on this one process (warm, change directory / root, ask again)
             for _ in range(n):
                 seq = gen_sequence(rng)
@@ -488,6 +555,13 @@ class C16(Check):
                     cases.append([tuple(b) for b in s.get('before') or []] + [c])
             cases += [[(c, r, f, m, False)] for (c, r) in ROOTS for f in NAMED for m in ('GET',)]
             cases += [[(c, r, f, 'HEAD', False)] for (c, r) in ROOTS[:6] for f in NAMED]
+            # every traversal in every look-alike family: dot-dot segments, separators, both re-spelled (+ the positive
+            # controls: directories that really carry such a name, inside the root)
+            look = sorted({respell(None, t, fam, w) for t in TRAVERSALS for fam in sorted(FOLD_FAMILIES) for w in ('dots', 'seps', 'all')}
+                          | {u + t[2:] for t in TRAVERSALS if t.startswith('../') for u in UNI_FOLDS.get('..', [])}
+                          | {'\u2025/lookalike.txt', '\uff0e\uff0e/lookalike.txt', '%2e%2e/lookalike.txt', '\u2025/../a.txt'})
+            self.stats['lookalike_names'] = len(look)
+            cases += [[(c, r, f, 'GET', False)] for (c, r) in ROOTS[:4] + [('root', '.'), ('', '{T}/base/Public')] for f in look]
             cases += [[self._case(rng)] for _ in range(n)]
             # sequences: every collision family systematically (warm A, ask B, ask A again), then random ones
             for root, cwds in SAME_ROOT_STRING:
